@@ -1,0 +1,33 @@
+// Copyright ©2024 The Gonum Authors. All rights reserved.
+// Use of this source code is governed by a BSD-style
+// license that can be found in the LICENSE file.
+
+//go:build verif
+
+package uid
+
+import "fmt"
+
+// VerifCheck checks the internal consistency of the ID set and that the set
+// of IDs in use is exactly live (when exact is true) or a superset of live
+// (when exact is false). It exists only with the verif build tag and is used
+// by the runtime monitors in /verif.
+func (s *Set) VerifCheck(live map[int64]bool, exact bool) error {
+	for id := range s.used {
+		if s.free.Has(id) {
+			return fmt.Errorf("uid: ID %d is both used and free", id)
+		}
+		if id > s.maxID {
+			return fmt.Errorf("uid: used ID %d is greater than maxID %d", id, s.maxID)
+		}
+		if exact && !live[id] {
+			return fmt.Errorf("uid: ID %d is marked used but is not live", id)
+		}
+	}
+	for id := range live {
+		if !s.used.Has(id) {
+			return fmt.Errorf("uid: live ID %d is not marked used", id)
+		}
+	}
+	return nil
+}
